@@ -76,6 +76,7 @@ func c03(r *Report) {
 	c03KidPattern(r)
 	c03NoDecodingInBackends(r)
 	c03NewKeyName(r)
+	gormZeroValue(r, "C03.kid-lookup.no-struct-condition", "a lookup for kid \"\" would match some other key", 1, nil, "crypto")
 
 	// (5)
 	c03Audit(r, p.Func("crypto", "Crypto", "New"), Fn("gorm.io/gorm", "DB", "Save"))
